@@ -309,7 +309,9 @@ type pChainStore struct {
 }
 
 func (s *pChainStore) Put(ctx context.Context, b *common.Beacon) error {
-	return s.n.persist("chain.Put", "", func() error { return s.Store.Put(ctx, b) })
+	err := s.n.persist("chain.Put", "", func() error { return s.Store.Put(ctx, b) })
+	s.n.e.onChainPut(s.n, b, err)
+	return err
 }
 func (s *pChainStore) Del(ctx context.Context, r uint64) error {
 	return s.n.persist("chain.Del", "", func() error { return s.Store.Del(ctx, r) })
@@ -332,6 +334,9 @@ func (e *daemonEngine) installPersistHooks() {
 		if n == nil {
 			return s
 		}
+		n.mu.Lock()
+		n.chainBase = s
+		n.mu.Unlock()
 		return &pChainStore{Store: s, n: n}
 	}
 }
